@@ -185,7 +185,12 @@ func check(c algebraCase) *vlib.Failure {
 				obj.Reverse()
 			}
 			mdl.RevComp(comp)
-			if e := sm.CompareRows(obj.Observe(), mdl, opts); e != nil {
+			twice := opts
+			if !comp {
+				// applied twice, Reverse is the identity: the letters are back where they were
+				twice.Offsets = true
+			}
+			if e := sm.CompareRows(obj.Observe(), mdl, twice); e != nil {
 				return fail(o.Kind+"-twice-"+errKind(e), e, ctx+" applied twice")
 			}
 			if comp {
